@@ -654,6 +654,10 @@ def run(tier, pid="C12"):
                            "C12 invariant: %s" % (v[1], jdump(abstract(tr))[:400]))
     if not rep.samples:
         rep.sample({"note": "see tlc_runs"})
+    # unbounded number of blocks: Apalache discharges an inductive invariant of the semaphore protocol
+    from . import apalache
+
+    apalache.obligations(rep)
     rep.exhaustive = False
     rep.extra["explanation"] = (
         "TLC: exhaustive for the bounded instances in spec/conc/ts_mc*.cfg; real executions: exhaustive up to the "
